@@ -20,7 +20,8 @@
 EXTENDS Programs, TLC, Json
 
 CONSTANTS MaxLeaves, MaxOps, MaxTensors, ChunkSizes, MaxRows,
-          SampleMod, SamplePick     \* scenario export: 1 out of SampleMod (by a content hash)
+          SampleMod, SamplePick,    \* scenario export: 1 out of SampleMod (by a content hash)
+          PreModes                  \* subset of {"none", "all"}: pre-existing .grad on no / every requested input
 
 VARIABLES P,        \* the program
           phase,    \* "build" | "init" | "diag" | "jac" | "agg" | "acc" | "done"
@@ -68,7 +69,7 @@ ChooseCall ==
     /\ \E ts \in TensorSeqs, ins \in (SUBSET RGLeaves(P)) \ {{}}, k \in ChunkSizes :
          /\ Len(P) \in Range(ts)
          /\ NRowsOf(ts) <= MaxRows
-         /\ \E pre \in {{}, ins} :
+         /\ \E pre \in ({{} : x \in PreModes \cap {"none"}} \cup {ins : x \in PreModes \cap {"all"}}) :
               /\ call' = [tensors |-> ts, inputs |-> ins, k |-> k,
                           w |-> [r \in 1..NRowsOf(ts) |-> Weight(r)], pre |-> pre,
                           m |-> NRowsOf(ts)]
